@@ -14,6 +14,7 @@ revolve/extrude sections against the evaluated profile.
 """
 from fractions import Fraction as F
 import math
+import re
 from math import pi, sqrt, cos, sin, atan2, ceil
 
 import numpy as np
@@ -32,14 +33,14 @@ RULE = ('every factory of the property (line, polygon, n_gon, circle p2C0/p4C1, 
         'every octant, non-unit, rational-norm (exact stream) and arbitrary floats; x-axes orthogonal to the normal; '
         'angles in [-2pi,2pi] incl. the span-count thresholds and +-2pi; both circle types; non-collinear triples '
         '(2D, 3D, mixed).  distinct = distinct protocol lines; non-trivial = the call does not raise.')
-REQUIRED_TAGS = ['op=circle', 'op=ellipse', 'op=arc', 'op=three', 'op=ngon', 'op=line', 'op=polygon', 'op=square',
+REQUIRED_TAGS = ['normal-signed-zero', 'op=circle', 'op=ellipse', 'op=arc', 'op=three', 'op=ngon', 'op=line', 'op=polygon', 'op=square',
                  'op=cube', 'op=disc', 'op=sphere', 'op=cylinder', 'op=torus', 'op=revolve', 'op=extrude',
                  'op=revolve_vol', 'op=extrude_vol', 'op=sphere_vol', 'op=torus_vol', 'op=cylinder_vol',
                  'op=local_x', 'op=flip', 'type=p4C1', 'type=p2C0', 'normal=-ez', 'normal=+ez', 'normal=axis',
                  'normal=nonunit', 'stream=exact', 'stream=float', 'spans=1', 'spans=2', 'spans=3', 'theta<0',
                  'theta=2pi', 'theta=threshold', 'raises']
 
-KNOWN_LABELS = ['center-within-1e-8-of-origin-ignored', 'three-point-arc-wrong-end', 'three-point-arc-small-radius-absolute-tolerance', 'three-point-arc-nan-half-turn', 'three-point-arc-half-turn-accuracy', 'arc-2pi-ignores-xaxis', 'near-ez-normal-misplaced',
+KNOWN_LABELS = ['signed-zero-normal-half-turn', 'center-within-1e-8-of-origin-ignored', 'three-point-arc-wrong-end', 'three-point-arc-small-radius-absolute-tolerance', 'three-point-arc-nan-half-turn', 'three-point-arc-half-turn-accuracy', 'arc-2pi-ignores-xaxis', 'near-ez-normal-misplaced',
                 'volume-revolve-negative-theta-reversed', 'cylinder-height-scaled-by-axis-norm']
 
 PI_F = F(math.pi)
@@ -118,10 +119,52 @@ def Minv(a, v):
     return [x, y, z]
 
 
-def float_naux(n):
+_azimuth_form = None
+
+
+def azimuth_form():
+    """How `utils.rotate_local_x_axis` / `flip_and_move_plane_geometry` of the tree under test take the azimuth
+    of the normal — read off the source: 'raw' = `atan2(normal[1], normal[0])` (signed zeros give +-pi for a
+    normal along the z-axis), 'guarded' = 0 when the normal has no xy-part."""
+    global _azimuth_form
+    if _azimuth_form is None:
+        import importlib
+        import inspect
+        from vlib import impl as _impl
+        _impl.load()
+        ut = importlib.import_module('splipy.utils')
+        forms = set()
+        for fn in (ut.rotate_local_x_axis, ut.flip_and_move_plane_geometry):
+            code = [l.split('#')[0] for l in inspect.getsource(fn).splitlines()]
+            th = [l for l in code if re.match(r'\s*theta\s*=', l)]
+            if len(th) != 1 or 'atan2(normal[1], normal[0])' not in th[0]:
+                raise RuntimeError('unrecognised azimuth line in %s: %r; update harness/props/C13.py' % (fn.__name__, th))
+            rest = th[0].replace('atan2(normal[1], normal[0])', '').replace(' ', '')
+            if rest in ('theta=',):
+                forms.add('raw')
+            elif rest == 'theta=if(normal[0]!=0ornormal[1]!=0)else0.0':
+                forms.add('guarded')
+            else:
+                raise RuntimeError('unrecognised azimuth rule in %s: %r; update harness/props/C13.py' % (fn.__name__, th[0]))
+        if len(forms) != 1:
+            raise RuntimeError('rotate_local_x_axis and flip_and_move_plane_geometry use different azimuth rules: %s' % forms)
+        _azimuth_form = forms.pop()
+    return _azimuth_form
+
+
+def float_naux_raw(n):
+    """(cos, sin) of theta = atan2(n_y, n_x), phi = atan2(|n_xy|, n_z) — `revolve` computes these itself."""
     th = atan2(n[1], n[0])
     ph = atan2(sqrt(n[0] ** 2 + n[1] ** 2), n[2])
     return [cos(th), sin(th), cos(ph), sin(ph)]
+
+
+def float_naux(n):
+    """The same for the placement helpers, with the azimuth rule of the tree under test."""
+    if azimuth_form() == 'guarded' and n[0] == 0 and n[1] == 0:
+        ph = atan2(0.0, n[2])
+        return [1.0, 0.0, cos(ph), sin(ph)]
+    return float_naux_raw(n)
 
 
 def float_lam(xaxis, a):
@@ -410,6 +453,25 @@ def generate(rng, tier):
                         'stream': 'float'})
             S.append(sp_)
     S.append(placed(rng, {'op': 'arc', 'theta': 0.0, 'r': 1.0, 'tkind': 'zero', 'raises': True}, 'axis'))
+    # normals (+-0., +-0., +-1): signed zeros decide atan2(n_y, n_x); plus a 2-D three-point triple whose travel
+    # normal is exactly (-0., 0., 1.)
+    for sx in (0.0, -0.0):
+        for sy in (0.0, -0.0):
+            for sz in (1.0, -1.0):
+                nrm = [sx, sy, sz]
+                for op, extra in (('circle', {'r': 1.5, 'type': 'p2C0'}), ('circle', {'r': 0.5, 'type': 'p4C1'}),
+                                  ('arc', {'theta': 2.0, 'r': 2.0, 'tkind': 'float'}), ('arc', {'theta': -4.5, 'r': 1.0, 'tkind': 'float'}),
+                                  ('ellipse', {'r1': 2.0, 'r2': 0.5, 'type': 'p2C0'}), ('disc', {'r': 1.0, 'type': 'radial'}),
+                                  ('disc', {'r': 1.0, 'type': 'square'}), ('sphere', {'r': 1.0}), ('torus', {'r1': 0.5, 'r2': 2.0}),
+                                  ('cylinder', {'r': 1.0, 'h': 2.0}), ('torus_vol', {'r1': 0.5, 'r2': 2.0, 'type': 'radial'}),
+                                  ('cylinder_vol', {'r': 1.0, 'h': 0.5, 'type': 'radial'}), ('local_x', {}), ('ngon', {'n': 5, 'r': 1.0})):
+                    sp_ = dict(extra)
+                    sp_.update({'op': op, 'normal': list(nrm), 'xaxis': rng.choice([[1.0, 0.0, 0.0], [0.0, 1.0, 0.0], [-1.0, 1.0, 0.0]]),
+                                'center': [0.5, -1.0, 2.0], 'nkind': 'signed-zero', 'stream': 'float'})
+                    if op == 'ngon':
+                        sp_.pop('xaxis')
+                    S.append(sp_)
+    S.append({'op': 'three', 'x': [[-1.0, 3.5], [1.0, 4.0], [-2.0, 3.75]], 'stream': 'float', 'tkind': 'signed-zero'})
     S.append({'op': 'circle', 'r': 1e-9, 'type': 'p2C0', 'normal': [0, 0, 1], 'xaxis': [1, 0, 0], 'center': [5e-9, 0.0, 0.0],
               'nkind': 'tiny-center', 'stream': 'float'})
     # right angle at x1 (x0, x2 antipodal on the circumcircle: theta = pi)
@@ -635,7 +697,7 @@ def model_line(s):
         a, lam = placement(s)
         return line('f_cylinder_vol', CONSTS, s['r'], _haxis(s), s['center'], s['normal'], s['xaxis'], Word(s['type']), a, lam)
     if op in ('revolve', 'revolve_vol'):
-        a = [F(x) for x in ex['naux']] if 'naux' in ex else float_naux(s['axis'])
+        a = [F(x) for x in ex['naux']] if 'naux' in ex else float_naux_raw(s['axis'])
         return line('f_' + op, CONSTS, gen.enc_object(s['obj']), s['theta'], arc_aux(s['theta'], ex), a)
     if op in ('extrude', 'extrude_vol'):
         return line('f_extrude', gen.enc_object(s['obj']), s['amount'])
@@ -773,10 +835,26 @@ def oracle(sp, s):
         if s.get('raises'):
             return ['expected an exception for inadmissible arguments, got an object']
         f = _ORACLES[s['op']](sp, s, obj)
+        if f and _signed_zero_affected(s):
+            # atan2(+-0., -0.) = +-pi in rotate_local_x_axis while flip_and_move skips its rotation (normal ~ e_z)
+            f = ['[signed-zero-normal-half-turn] ' + re.sub(r'^\[[^\]]*\] ', '', m) for m in f]
         if f and s.get('nkind') == 'tiny-center':
             # flip_and_move_plane_geometry skips the translation when np.allclose(center, 0) (absolute 1e-8)
             f = ['[center-within-1e-8-of-origin-ignored] ' + m for m in f]
         return f
+
+
+def _signed_zero_affected(s):
+    """The effective normal has no xy-part, a non-zero raw azimuth (signed zeros) and is ~ e_z (flip skipped)."""
+    if s['op'] == 'three':
+        p = [_v3(t) for t in s['x']]
+        n = np.cross(p[0] - p[2], p[1] - p[2])
+    else:
+        n = s.get('normal')
+        if n is None:
+            return False
+        n = np.array([float(t) for t in n])
+    return bool(n[0] == 0 and n[1] == 0 and atan2(n[1], n[0]) != 0 and np.allclose(n, [0, 0, 1]))
 
 
 def _oracle_raise(s, e):
@@ -1252,10 +1330,13 @@ def o_extrude(sp, s, q):
 def o_local_x(sp, s, ang):
     """pre-rotation by the returned angle followed by the flip maps e_x onto the requested x-axis."""
     n, x, y = _frame(s)
-    a = float_naux(s['normal'])
-    img = np.array(Mrot(a, [cos(ang), sin(ang), 0.0]))
+    import importlib
+    ut = importlib.import_module('splipy.utils')
+    seg = sp.Curve(controlpoints=[[0.0, 0.0, 0.0], [cos(ang), sin(ang), 0.0]])
+    ut.flip_and_move_plane_geometry(seg, (0, 0, 0), s['normal'])
+    img = _pad(seg(1.0))[0]
     if not np.linalg.norm(img - x) <= 1e-9:
-        return ['rotate_local_x_axis: R_z(theta)R_y(phi)R_z(alpha) e_x = %s, requested %s' % (img.tolist(), x.tolist())]
+        return ['rotate_local_x_axis: the flip of R_z(alpha) e_x is %s, requested %s' % (img.tolist(), x.tolist())]
     return []
 
 
@@ -1320,6 +1401,8 @@ def tags(s, res):
             out.append('normal=nonunit')
         if s.get('nkind') == 'near-ez':
             out.append('normal=near-ez')
+        if s.get('nkind') == 'signed-zero':
+            out.append('normal-signed-zero')
     if 'theta' in s:
         th = s['theta']
         sp_ = int(ceil(abs(th) / (2 * pi / 3))) if abs(th) <= 2 * pi else 9
